@@ -11,22 +11,28 @@ import (
 func init() {
 	register("C17", "Decides structural necessary conditions of 'multi-log submission returns a policy-satisfying SCT set or says it did not': "+
 		"(L1–L6) every access to the state shared by concurrent submissions, weight changes and log-list / root refreshes is made under its mutex (safeSubmissionState, Distributor, Proxy, LogListManager, LogGroupInfo, logListRefresherImpl); "+
+		"(L1–L6 published-object:, L7) publication discipline: a guarded field that holds a reference protects the OBJECT behind it — for every such field either no reference loaded from it outlives its critical section (not used after the unlock, not returned, stored elsewhere, sent, captured by a goroutine or a lasting function value) or no function of the module writes into the published object (stores, map stores / deletes, append / copy into it, calls of functions that write through that argument, writes through the local it was published from after the publishing section); a field with both an escaping reference and an in-place mutation fails, and so does an in-place mutation made under the read lock only; "+
 		"(R1) at most one request per log: SubmitToLog is called only from the per-log goroutine of a group race and only after request() returned true; request() refuses a log that already has a result entry and records the entry before it can return true; result entries are never removed or reset to nil; "+
 		"(R2) distinct logs: the returned set is built only by ranging over the per-log result map and keeps entries that carry an SCT, labelled with their own key; "+
 		"(R3) success ⇔ every group complete: GetSCTs presets every group to 'not complete' before listening for events, records exactly the reported outcome, and returns completenessError over that map on both exits; completenessError is nil only if no entry is false; a race reports Success only from groupComplete(); groupComplete ⇔ needs ≤ 0; needs start at MinInclusions and are decremented only in setResult on the branch that has an SCT (a failed request is booked against no group), and on every path that books the SCT against a group that may still be waiting the log's result entry ends up carrying that SCT; "+
 		"(R4) who is contacted: the policy input of addSomeChain comes only from usableLl.Compatible(...) (pending logs only from pendingQualifiedLl), Compatible = TemporallyCompatible then RootCompatible, and a certificate / precertificate mismatch with the endpoint is an error; "+
 		"(R9) the log list handed to the policy is, on every path, the result of usableLl.Compatible(leaf, nil | last certificate, recorded roots) computed in this call from the chain parsed from this call's input and handed on with it — never a cached, remembered or unfiltered list; GetSCTs is started only from addSomeChain with the groups of a LogsByGroup call made there; "+
 		"(R5) policy group minima: Chrome = Google-operated ≥ 1, non-Google ≥ 1 plus the lifetime-dependent base group; Apple = base group; lifetime thresholds <15 → 2, ≤27 → 3, ≤39 → 4, else 5; setMinInclusions refuses a group that is too small. "+
-		"NOT covered: the outcomes of the races themselves, liveness ('does report success'), termination, fairness of the weighted random order.",
+		"NOT covered: the outcomes of the races themselves, references to ELEMENTS of a published object that leave the critical section (only the reference held in the field is followed), aliases of a published object kept by the callers of a setter, deferred calls that run after a deferred unlock, liveness ('does report success'), termination, fairness of the weighted random order.",
 		runC17)
 }
 
 func runC17(r *Run) {
 	r.Assume("Go's memory model: accesses ordered by a common mutex do not race; channel operations are safe")
+	r.pubReset()
 	for i, k := range []string{"safeSubmissionState", "Distributor", "Proxy", "LogListManager", "LogGroupInfo", "logListRefresherImpl"} {
 		r.Rule(fmt.Sprintf("C17.L%d", i+1))
 		r.LockCheck(lockTable[k])
 	}
+	// publication discipline of those tables (decided inside LockCheck, one obligation per guarded
+	// reference field): both sides of it must have been seen at work
+	r.Rule("C17.L7")
+	r.pubFloors(11)
 
 	if r.Tier == "thorough" && r.cfg == "" {
 		// discovery: every mutex-bearing struct of the anchored packages is in the lock
